@@ -528,11 +528,18 @@ func (c *Ctx) c17Pool() {
 		})
 	}
 	r.Floor("C17/POOL", "accesses of statePool.states/channels", nAcc, 1)
-	// (b) getState: shrink store dominates the return of the popped element
+	// (b) the function that pops a state (getState itself, or a helper whose result getState
+	// returns): the shrink store dominates the return of the popped element
 	var shrink *ssa.Store
-	for _, s := range eng.StoresToField([]*ssa.Function{getState}, fStates) {
+	var popFn *ssa.Function
+	for _, s := range eng.StoresToField(fns, fStates) {
 		if sl, ok := s.Store.Val.(*ssa.Slice); ok && eng.SameField(eng.LoadedField(sl.X), fStates) {
-			shrink = s.Store
+			if _, isC := eng.ConstInt(sl.High); isC {
+				continue // states[:0] flush, not a pop
+			}
+			if s.Fn == getState || reachesSync(getState, s.Fn) {
+				shrink, popFn = s.Store, s.Fn
+			}
 		}
 	}
 	okB := false
@@ -541,7 +548,8 @@ func (c *Ctx) c17Pool() {
 		sl := shrink.Val.(*ssa.Slice)
 		okB = true
 		why = ""
-		eng.EachInstr(getState, func(in ssa.Instruction) {
+		found := false
+		eng.EachInstr(popFn, func(in ssa.Instruction) {
 			ret, ok := in.(*ssa.Return)
 			if !ok || eng.IsRecoverBlock(ret.Block()) {
 				return
@@ -555,6 +563,7 @@ func (c *Ctx) c17Pool() {
 			if !ok || !eng.SameField(eng.LoadedField(ia.X), fStates) {
 				return
 			}
+			found = true
 			// popped index must equal the new length (High of the slice)
 			if !sameIndex(ia.Index, sl.High) {
 				okB, why = false, "the element returned is not the one cut off by the shrink (index differs from the new length)"
@@ -563,6 +572,21 @@ func (c *Ctx) c17Pool() {
 				okB, why = false, "the pool is not shrunk before the popped state is returned: the next caller receives the same state"
 			}
 		})
+		if !found {
+			okB, why = false, "the function that shrinks the pool does not return the cut-off element"
+		}
+		if popFn != getState {
+			// getState must hand out that helper's result
+			hands := false
+			for _, ret := range successReturns(getState) {
+				if call, _ := eng.CallAndIndex(eng.ReturnResults(ret)[0]); call != nil && eng.StaticCallee(call.Common()) == popFn {
+					hands = true
+				}
+			}
+			if !hands {
+				okB, why = false, "getState does not return the state popped by "+shortFn(popFn)
+			}
+		}
 	}
 	r.Check(okB, "C17/POOL", "getState-pop", p.Pos(getState.Pos()), "states[ln-1] is returned after states = states[:ln-1]", why)
 	// (c) users: every call of getState (through prepare helper) is paired with a deferred putState
